@@ -2,8 +2,10 @@ package harness
 
 import (
 	"bytes"
+	"encoding/json"
 	"fmt"
 	"net"
+	"net/http"
 	"os"
 	"path/filepath"
 	"sort"
@@ -631,6 +633,8 @@ func (x *SExec) apply(i int, op SOp) *Fail {
 		return x.doCtlResize(i, op)
 	case "race":
 		return x.doRace(i, op)
+	case "statsrace":
+		return x.doStatsRace(i, op)
 	case "snaprace":
 		return x.doSnapRace(i, op)
 	case "iorace":
@@ -3098,4 +3102,107 @@ func (x *SExec) rebuildSource() int {
 		}
 	}
 	return -1
+}
+
+// doStatsRace: GET /v1/stats is parked at the point where the controller asks one
+// replica for its details (after it has taken its view of the membership), a
+// replica that is not the last entry of the list is removed meanwhile, and the
+// answer is inspected: it names each replica once, its counter is the number of
+// replicas it names, and that membership is the one before or the one after the
+// removal.
+func (x *SExec) doStatsRace(i int, op SOp) *Fail {
+	st := x.St
+	for j, m := range x.Mode {
+		if m == types.ERR || (m == "" && st.Mode(j) != "") {
+			return nil
+		}
+	}
+	vs := st.C.VerifState()
+	if len(vs.Replicas) < 2 {
+		return nil
+	}
+	if err := st.EnableCtrlREST(); err != nil {
+		panic(err)
+	}
+	ri := op.Node % (len(vs.Replicas) - 1) // not the last entry
+	raddr := vs.Replicas[ri].Address
+	rn, hn := -1, -1
+	for j, nd := range st.Nodes {
+		if nd.Addr == raddr {
+			rn = j
+		}
+		if nd.Addr == vs.Replicas[len(vs.Replicas)-1].Address {
+			hn = j
+		}
+	}
+	if rn < 0 || hn < 0 {
+		return nil
+	}
+	var before, after []string
+	for _, r := range vs.Replicas {
+		before = append(before, r.Address)
+		if r.Address != raddr {
+			after = append(after, r.Address)
+		}
+	}
+	sort.Strings(before)
+	sort.Strings(after)
+	h := st.Nodes[hn].HoldRest("GET /v1/replicas/1", 500*time.Millisecond)
+	type statsAnswer struct {
+		ReplicaCounter int             `json:"ReplicaCounter"`
+		Replicas       []types.Replica `json:"Replicas"`
+	}
+	type result struct {
+		a   statsAnswer
+		err error
+	}
+	resc := make(chan result, 1)
+	go func() {
+		var r result
+		cl := &http.Client{Timeout: 15 * time.Second}
+		resp, err := cl.Get(st.CtrlURL() + "/v1/stats")
+		if err != nil {
+			r.err = err
+		} else {
+			defer resp.Body.Close()
+			r.err = json.NewDecoder(resp.Body).Decode(&r.a)
+		}
+		resc <- r
+	}()
+	parked := false
+	select {
+	case <-h.Arrived:
+		parked = true
+	case <-time.After(3 * time.Second):
+	}
+	err := st.C.RemoveReplica(raddr)
+	x.tracef("statsrace: remove %s while GET /v1/stats is parked at n%d (parked=%v) -> %v", raddr, hn, parked, err)
+	if err != nil {
+		return sfail("remove|error", err.Error(), "C18")
+	}
+	x.detach(rn)
+	r := <-resc
+	if r.err != nil {
+		return sfail("stats|request-failed", fmt.Sprintf("GET /v1/stats during the removal of %s: %v", raddr, r.err), "C18", "C14")
+	}
+	var got []string
+	seen := map[string]bool{}
+	for _, rp := range r.a.Replicas {
+		if seen[rp.Address] {
+			return sfail("stats|address-twice", fmt.Sprintf("GET /v1/stats answered while %s was being removed names %s twice: %v (counter %d)", raddr, rp.Address, r.a.Replicas, r.a.ReplicaCounter), "C18")
+		}
+		seen[rp.Address] = true
+		got = append(got, rp.Address)
+	}
+	sort.Strings(got)
+	if r.a.ReplicaCounter != len(got) {
+		return sfail("stats|counter-vs-list", fmt.Sprintf("GET /v1/stats: ReplicaCounter=%d, %d replicas named: %v", r.a.ReplicaCounter, len(got), r.a.Replicas), "C18")
+	}
+	if strings.Join(got, ",") != strings.Join(before, ",") && strings.Join(got, ",") != strings.Join(after, ",") {
+		return sfail("stats|membership-that-never-existed", fmt.Sprintf("GET /v1/stats names %v; before the removal of %s the list was %v, afterwards %v", got, raddr, before, after), "C18")
+	}
+	if parked {
+		x.Labels["statsrace:parked"]++
+	}
+	return nil
 }
